@@ -302,15 +302,17 @@ def best_trials_once(goals, trials):
     ts = []
     for v in trials:
         t = vz.Trial(parameters={'x': 0.5})
-        if v is None:
+        if v is None or all(x is None for x in v):
             t.complete(vz.Measurement(), infeasibility_reason='replay')
         else:
-            t.complete(vz.Measurement(metrics={'m%d' % i: float(x) for i, x in enumerate(v)}))
+            # a None component = the trial does not report that metric (its label is NaN)
+            t.complete(vz.Measurement(metrics={'m%d' % i: float(x) for i, x in enumerate(v) if x is not None}))
         ts.append(t)
     sup.AddTrials(ts)
     got = call(lambda: [t.id for t in sup.GetBestTrials()])
     ids = [t.id for t in sup.trials]
-    vecs = {ids[i]: [(-1.0 if g == 'MINIMIZE' else 1.0) * float(x) for g, x in zip(goals, v)] for i, v in enumerate(trials) if v is not None}
+    vecs = {ids[i]: [(-1.0 if g == 'MINIMIZE' else 1.0) * float(x) for g, x in zip(goals, v)] for i, v in enumerate(trials)
+            if v is not None and all(x is not None for x in v)}
     spec = [i for i in ids if i in vecs and not any(dom(vecs[j], vecs[i]) for j in vecs)]
     return got, spec, ids, vecs
 
